@@ -17,6 +17,8 @@ def _env():
     if _ENV:
         return _ENV
     from ak.ghist import ProjectRepo, ReposCollection, RBuild
+    import logging
+    logging.getLogger('ak.ghist').setLevel(logging.ERROR)       # "references unknown version" warnings are expected in some families
 
     class Lib(ProjectRepo):
         pass
@@ -184,9 +186,11 @@ def _job(case):
         signal.alarm(0)
 
 
-def _cfg(mcomp, mc, mt, mb, emit, invs=True, diamond=False):
+def _cfg(mcomp, mc, mt, mb, emit, invs=True, diamond=False, sideways=False, linear=False):
     return ('SPECIFICATION Spec\nCHECK_DEADLOCK FALSE\nCONSTANTS\n  MaxComp = %d\n  MaxCommits = %d\n  MaxTags = %d\n  MaxBranches = %d\n'
-            '  Emit = %s\n  Diamond = %s\n' % (mcomp, mc, mt, mb, 'TRUE' if emit else 'FALSE', 'TRUE' if diamond else 'FALSE')
+            '  Emit = %s\n  Diamond = %s\n  Sideways = %s\n  LinearParent = %s\n' % (
+                mcomp, mc, mt, mb, 'TRUE' if emit else 'FALSE', 'TRUE' if diamond else 'FALSE', 'TRUE' if sideways else 'FALSE',
+                'TRUE' if linear else 'FALSE')
             + ('INVARIANT IncludedSomewhere\nINVARIANT NeverTwiceOnAPath\n' if invs else ''))
 
 
@@ -227,7 +231,7 @@ def run(ctx):
     ctx.assumptions += ['single-branch component whose history may contain parallel sub-branches and merges (for non-linear components the '
                         'report-related builds are taken from the component report itself); parent histories with merges and up to 2 (quick) / 3 branches whose heads '
                         'do not lie inside a lower-sorted branch (known finding F-C06 of C06 lives there); pins never decrease '
-                        'along a path (the new pin contains the old one) and name existing component builds; all commit times within a few hours (inside the '
+                        'along a path (the new pin contains the old one; in the sideways family of the diamond component only the build NUMBER does not decrease) and name existing component builds; all commit times within a few hours (inside the '
                         'cut-off windows)',
                         'component versions: 1.0.<build> from tags build_<n>_release_1_0_success (or 0.9.<build> from build_<n>_release_0_9_success), or 1.<commit>.<build> from tags build_<n>_master_success plus a VERSION file that changes with every commit']
     ctx.tlc('ghist/GHistComp.tla', _cfg(2, 2, 2, 2, False) if ctx.quick else _cfg(2, 3, 2, 2, False), workers=16, timeout=3000)
@@ -244,6 +248,16 @@ def run(ctx):
         dia = ctx.rnd.sample(dia, min(15000, len(dia)))
     ctx.extra['diamond_component_pairs'] = len(dia)
     cases += dia
+    # the pinned version moves to a PARALLEL build of the diamond (a higher number that does not contain the old pin) and
+    # on to the merge: what was shipped before the detour must not be recorded again (finding F-C07b); parent of 3 commits
+    # (quick: one line of commits; thorough: any shape)
+    r = ctx.tlc('ghist/GHistComp.tla', _cfg(4, 3, 3, 1, True, invs=False, diamond=True, sideways=True, linear=ctx.quick), workers=16,
+                timeout=7200, heap='16g')
+    side = [c for c in r.printed if isinstance(c, dict)]
+    ctx.extra['sideways_pin_pairs'] = len(side)
+    for c in side:
+        c['sideways'] = True
+    cases += side
     n_exh = len(cases)
     if n_exh < 1000:
         raise Machinery('GHistComp emitted %d cases' % n_exh)
@@ -271,7 +285,7 @@ def run(ctx):
         # does not contain all its ancestors, and what the report must say then is not fixed by the property)
         roots_built = all(c['ctagged'][k] for k in range(c['ck']) if not c['cparents'][k])
         no_plain_merge = all(c['ctagged'][k] or len(c['cparents'][k]) <= 1 or k + 1 != c['ck'] for k in range(c['ck']))
-        if ((i // 4) % 2 or c.get('prefer_saved')) and roots_built and no_plain_merge and all(x <= 1 for x in c['ctagged']) and not any(c['pin2']):
+        if ((i // 4) % 2 or c.get('prefer_saved')) and not c.get('sideways') and roots_built and no_plain_merge and all(x <= 1 for x in c['ctagged']) and not any(c['pin2']):
             c['vfile'] = 2
     res = pmap(_job, cases, chunk=100)
     for c, prob in zip(cases, res):
